@@ -216,6 +216,15 @@ func ModeFromBits(p uint32) fs.FileMode {
 }
 
 // TypeLetter abstracts the file type.
+// EntryType renders DirEntry.Type(): by contract only the type bits of the mode
+// (Mode().Type()); anything else in it is shown.
+func EntryType(m fs.FileMode) string {
+	if extra := m &^ fs.ModeType; extra != 0 {
+		return TypeLetter(m) + fmt.Sprintf("!+%o", uint32(extra))
+	}
+	return TypeLetter(m)
+}
+
 func TypeLetter(m fs.FileMode) string {
 	switch {
 	case m.IsDir():
@@ -258,7 +267,7 @@ func InfoString(fsys FS, fi fs.FileInfo, noOwner bool) (s string) {
 func entriesString(ents []fs.DirEntry) string {
 	var parts []string
 	for _, e := range ents {
-		parts = append(parts, e.Name()+":"+TypeLetter(e.Type()))
+		parts = append(parts, e.Name()+":"+EntryType(e.Type()))
 	}
 	return "[" + strings.Join(parts, " ") + "]"
 }
@@ -413,8 +422,9 @@ func (r *Runner) do(o Op) (out Out) {
 	case "Lchown":
 		return e(f.Lchown(o.P, o.Uid, o.Gid))
 	case "Chtimes":
+		// access and modification time differ, so that a file system that mixes them up shows
 		t := time.Unix(o.MT, 0)
-		return e(f.Chtimes(o.P, t, t))
+		return e(f.Chtimes(o.P, t.Add(36*time.Hour), t))
 	case "Chdir":
 		return e(f.Chdir(o.P))
 	case "Getwd":
@@ -474,7 +484,7 @@ func (r *Runner) do(o Op) (out Out) {
 			}
 			v := path
 			if d != nil {
-				v += ":" + TypeLetter(d.Type())
+				v += ":" + EntryType(d.Type())
 			}
 			if err != nil {
 				v += ":" + ErrKind(err)
@@ -584,7 +594,7 @@ func (r *Runner) do(o Op) (out Out) {
 				var ents []fs.DirEntry
 				ents, err = h.ReadDir(o.N)
 				for _, e := range ents {
-					names = append(names, e.Name()+":"+TypeLetter(e.Type()))
+					names = append(names, e.Name()+":"+EntryType(e.Type()))
 				}
 			} else {
 				names, err = h.Readdirnames(o.N)
